@@ -36,6 +36,8 @@ type shared12 struct {
 	nm      map[string]string
 	v1, v2  *K12
 	vt      *K12t
+	d1, d2  time.Time
+	custom  *zoo.CustomNamed
 	b1, b2  []byte
 	bt      []byte
 	long    string
@@ -56,7 +58,7 @@ func newShared12() *shared12 {
 		v1.P = v1
 		v2 := &K12{A: 300000, S: "two", P: &K12{A: 2}}
 		vt := &K12t{T: zoo.RefTime, L: []int32{1, 2}}
-		t.tm, t.nm = unionMaps(v1, v2, vt)
+		t.tm, t.nm = unionMaps(v1, v2, vt, &zoo.CustomNamed{})
 		t.b1, _ = hessian.ToBytes(v1, copyNameMap(t.nm))
 		t.b2, _ = hessian.ToBytes(v2, copyNameMap(t.nm))
 		t.bt, _ = hessian.ToBytes(vt, copyNameMap(t.nm))
@@ -90,6 +92,9 @@ func newShared12() *shared12 {
 	s.v1.P = s.v1
 	s.v2 = &K12{A: 300000, S: "two", P: &K12{A: 2}}
 	s.vt = &K12t{T: zoo.RefTime, L: []int32{1, 2}}
+	s.d1 = zoo.RefTime
+	s.d2 = zoo.RefTime.Add(1234567 * time.Millisecond)
+	s.custom = &zoo.CustomNamed{K: "k", V: 5}
 	for _, g := range t.garbage {
 		s.garbage = append(s.garbage, append([]byte{}, g...))
 	}
@@ -173,6 +178,17 @@ var bodies12 = []body12{
 		}
 		v, err := z.ToObject(b)
 		return decRes(v, err, "")
+	}, false},
+	{"two long-form dates, each encoded twice, and a custom-named struct (own Encoder)", func(s *shared12) string {
+		e := hessian.NewEncoder(nil, s.nm)
+		var sb strings.Builder
+		for _, t := range []time.Time{s.d1, s.d2, s.d1, s.d2} {
+			b, err := e.Encode(t)
+			sb.WriteString(encRes(b, err, "") + ";")
+		}
+		b, err := e.Encode(s.custom)
+		sb.WriteString(encRes(b, err, ""))
+		return sb.String()
 	}, false},
 	{"streaming: two writes and two reads on own Encoder/Decoder", func(s *shared12) string {
 		w := &strings.Builder{}
@@ -403,7 +419,7 @@ func init() {
 		Units: func(tier string) []core.Unit {
 			var us []core.Unit
 			// point counts per body are reported by the "measure" unit; short = encode bodies and small decodes
-			short := []int{0, 1, 4}
+			short := []int{0, 1, 4, 7}
 			isShort := func(i int) bool {
 				for _, s := range short {
 					if s == i {
@@ -449,7 +465,7 @@ func init() {
 					c.Res.Strs[fmt.Sprintf("points in body %d (%s)", i, b.name)] = fmt.Sprint(r.TotalPoints)
 				}
 			}})
-			triples := [][]int{{0, 1, 2}, {0, 2, 3}, {1, 3, 6}, {0, 4, 5}}
+			triples := [][]int{{0, 1, 2}, {0, 2, 3}, {1, 3, 6}, {0, 4, 5}, {7, 7, 7}}
 			if tier != "thorough" {
 				triples = triples[:2]
 			}
